@@ -25,6 +25,7 @@ type c15Node struct {
 	Rack     string // anti-affinity key 1 ("" = label absent)
 	Tier     string // anti-affinity key 2
 	Tainted  bool   // carries dedicated=gpu:NoSchedule (template B may or may not tolerate it)
+	NotReady bool   // carries node.kubernetes.io/not-ready:NoExecute (every daemon pod tolerates it by default): still a valid canary node
 	Restarts int    // restart count of the daemon pods on it (their sum when there are two)
 	// TwoPods: the node holds two daemon pods of the ExtendedDaemonSet (a crash-looping pod next to its successor);
 	// the restarts belong to the one that is listed first, the second one never restarted
@@ -41,6 +42,7 @@ type c15Case struct {
 	SelForm     int  // ... written as 0 matchLabels{zone: a}, 1 zone In [a], 2 zone NotIn [b], 3 zone In [a] + tier Exists, 4 zone NotIn [b] + notthere DoesNotExist
 	Keys        []string
 	BTolerates  bool     // new template tolerates the taint
+	BNotReadyNS bool     // new template carries its own toleration not-ready/Exists/NoSchedule (same key and operator as a default toleration, other effect): the default NoExecute toleration still applies
 	BSelector   bool     // new template has nodeSelector tier=a
 	BExclude    bool     // new template has a required affinity term with BOTH an expression (zone exists) and a field requirement (metadata.name NotIn [n00]): n00 is not eligible
 	Prev        []string // previously selected names (may be stale / duplicated / nonexistent)
@@ -51,9 +53,9 @@ type c15Case struct {
 func (k c15Case) String() string {
 	var ns []string
 	for _, n := range k.Nodes {
-		ns = append(ns, fmt.Sprintf("%s{zone=%s rack=%s tier=%s tainted=%v restarts=%d twoPods=%v namesakeRestarts=%d}", n.Name, n.Zone, n.Rack, n.Tier, n.Tainted, n.Restarts, n.TwoPods, n.Foreign))
+		ns = append(ns, fmt.Sprintf("%s{zone=%s rack=%s tier=%s tainted=%v notReady=%v restarts=%d twoPods=%v namesakeRestarts=%d}", n.Name, n.Zone, n.Rack, n.Tier, n.Tainted, n.NotReady, n.Restarts, n.TwoPods, n.Foreign))
 	}
-	return fmt.Sprintf("replicas=%s selector=%v(form %d) keys=%v newTemplate{tolerates=%v selector=%v excludesN00=%v} prev=%v(of an earlier canary set: %v) nodes=[%s]", k.Replicas, k.Selector, k.SelForm, k.Keys, k.BTolerates, k.BSelector, k.BExclude, k.Prev, k.PrevOtherRS, strings.Join(ns, " "))
+	return fmt.Sprintf("replicas=%s selector=%v(form %d) keys=%v newTemplate{tolerates=%v selector=%v excludesN00=%v notReadyNoScheduleToleration=%v} prev=%v(of an earlier canary set: %v) nodes=[%s]", k.Replicas, k.Selector, k.SelForm, k.Keys, k.BTolerates, k.BSelector, k.BExclude, k.BNotReadyNS, k.Prev, k.PrevOtherRS, strings.Join(ns, " "))
 }
 
 func c15Template(k c15Case) corev1.PodTemplateSpec {
@@ -63,6 +65,9 @@ func c15Template(k c15Case) corev1.PodTemplateSpec {
 	}
 	if k.BSelector {
 		t.Spec.NodeSelector = map[string]string{"tier": "a"}
+	}
+	if k.BNotReadyNS {
+		t.Spec.Tolerations = append(t.Spec.Tolerations, corev1.Toleration{Key: "node.kubernetes.io/not-ready", Operator: corev1.TolerationOpExists, Effect: corev1.TaintEffectNoSchedule})
 	}
 	if k.BExclude {
 		t.Spec.Affinity = &corev1.Affinity{NodeAffinity: &corev1.NodeAffinity{RequiredDuringSchedulingIgnoredDuringExecution: &corev1.NodeSelector{NodeSelectorTerms: []corev1.NodeSelectorTerm{{
@@ -83,6 +88,7 @@ func c15Draw(rt *rapid.T) c15Case {
 			Rack:     rapid.SampledFrom([]string{"r1", "r1", "r2", "r3", ""}).Draw(rt, name+"-rack"),
 			Tier:     rapid.SampledFrom([]string{"a", "a", "a", "b"}).Draw(rt, name+"-tier"),
 			Tainted:  rapid.IntRange(0, 4).Draw(rt, name+"-tainted") == 0,
+			NotReady: rapid.IntRange(0, 5).Draw(rt, name+"-notready") == 0,
 			Restarts: rapid.SampledFrom([]int{0, 0, 0, 1, 2, 5}).Draw(rt, name+"-restarts"),
 			TwoPods:  rapid.IntRange(0, 4).Draw(rt, name+"-twoPods") == 0,
 			Foreign:  rapid.SampledFrom([]int{0, 0, 0, 0, 3, 9}).Draw(rt, name+"-foreignRestarts"),
@@ -98,6 +104,7 @@ func c15Draw(rt *rapid.T) c15Case {
 		k.Keys = []string{"rack", "tier"}
 	}
 	k.BTolerates = rapid.Bool().Draw(rt, "bTolerates")
+	k.BNotReadyNS = rapid.IntRange(0, 2).Draw(rt, "bNotReadyNoScheduleToleration") == 0
 	k.BSelector = rapid.IntRange(0, 3).Draw(rt, "bSelector") == 0
 	k.BExclude = rapid.IntRange(0, 3).Draw(rt, "bExcludesN00") == 0
 	np := rapid.SampledFrom([]int{0, 0, 1, 2, 3}).Draw(rt, "nPrev")
@@ -122,6 +129,9 @@ func runC15(k c15Case) (vs []mon.V, classes []string, err error) {
 		var taints []corev1.Taint
 		if n.Tainted {
 			taints = []corev1.Taint{{Key: "dedicated", Value: "gpu", Effect: corev1.TaintEffectNoSchedule}}
+		}
+		if n.NotReady {
+			taints = append(taints, corev1.Taint{Key: "node.kubernetes.io/not-ready", Effect: corev1.TaintEffectNoExecute})
 		}
 		c.AddNode(n.Name, l, taints)
 	}
@@ -415,7 +425,7 @@ func runC15(k c15Case) (vs []mon.V, classes []string, err error) {
 }
 
 func TestC15Selection(t *testing.T) {
-	rec := evid.New("TestC15Selection", "C15", "node population (0-10 nodes; canary selector label, 1-2 anti-affinity labels, taint, restart count of the active pod) x replicas int/percent x canary nodeSelector x anti-affinity keys x new template (tolerates taint / has nodeSelector) x previously selected list (valid, stale, nonexistent; distinct; recorded for this canary replica set or for an earlier one of the same canary), one EDS reconcile; oracle = validity, stability, count, spread and least-restarts preference; non-trivial = percent replicas, or a stale/duplicate previous entry, or >=2 anti-affinity values, or differing restart counts; distinct by case rendering")
+	rec := evid.New("TestC15Selection", "C15", "node population (0-10 nodes; canary selector label, 1-2 anti-affinity labels, taint, not-ready:NoExecute taint (tolerated by default), restart count of the active pod) x replicas int/percent x canary nodeSelector x anti-affinity keys x new template (tolerates taint / has nodeSelector) x previously selected list (valid, stale, nonexistent; distinct; recorded for this canary replica set or for an earlier one of the same canary), one EDS reconcile; oracle = validity, stability, count, spread and least-restarts preference; non-trivial = percent replicas, or a stale/duplicate previous entry, or >=2 anti-affinity values, or differing restart counts; distinct by case rendering")
 	t.Cleanup(func() {
 		if !t.Failed() {
 			rec.Done()
